@@ -103,6 +103,12 @@ def _margin_ok(rec, qv, direction):
     return ok
 
 
+def _phys_factor(prim, unit_factor):
+    """f of the statement: unit factor * 4 pi / Omega with the PHYSICAL volume Omega = |det(lattice)| > 0 (never taken from
+    the implementation: a left-handed basis must not change the sign of the non-analytical term)"""
+    return float(unit_factor) * 4.0 * math.pi / abs(float(np.linalg.det(np.asarray(prim.cell, dtype=float))))
+
+
 def _closed_form(prim, Z, E, f, n_red):
     nc = np.linalg.inv(prim.cell) @ np.array(n_red, dtype=float)
     m = prim.masses
@@ -344,12 +350,14 @@ def main(run):
         n_g = rng.choice([30, 40, 50]) if npa <= 2 else (24 if npa <= 3 else (20 if npa <= 4 else 14))
         if thorough:
             n_g *= 2
-        g_small = (3 * n_g / (4 * np.pi) / prim.volume) ** (1.0 / 3)
+        g_small = (3 * n_g / (4 * np.pi) / abs(float(np.linalg.det(prim.cell)))) ** (1.0 / 3)
         for method, extra, corr in (("wang", {}, True), ("gonze", {"G_cutoff": g_small}, True), ("gonze", {}, False)):
             info = dict(info0, method=method, **extra)
             ph.nac_params = dict({"born": born_s.copy(), "dielectric": eps_s.copy(), "factor": factor, "method": method}, **extra)
             dm = ph.dynamical_matrix
-            Z, E, f = np.array(dm.born), np.array(dm.dielectric_constant), float(dm.nac_factor)
+            Z, E, f = np.array(dm.born), np.array(dm.dielectric_constant), _phys_factor(prim, factor)
+            if abs(float(dm.nac_factor) - f) > 1e-12 * abs(f):
+                run.count("observation: DynamicalMatrixNAC.nac_factor differs from unit factor * 4 pi / |volume|")
             run.count("method %s / %s / %s" % (method, "full" if full else "compact", variant))
             run.count("cell %s" % name)
             run.count("nac factor %.4g" % factor)
@@ -507,10 +515,11 @@ def main(run):
                     run.violation("Phonopy.nac_params", "zero-born-%s" % method, "zero Born charges change D at %s by %.3g" % (key, U.maxdiff(z, plain[key])), info)
             run.count("limits oracle (%s)" % method, section="oracle")
             ph.nac_params = dict({"born": born_s.copy(), "dielectric": eps_s.copy(), "factor": factor, "method": method}, **extra)
-            _batched_oracle(run, rng, ph, prim, rec, cp, q_comm if method == "wang" else q_comm_bz, q_gen, n1, plain, sc, sc_dd, method, info, thorough)
+            _batched_oracle(run, rng, ph, prim, rec, cp, q_comm if method == "wang" else q_comm_bz, q_gen, n1, plain, sc, sc_dd, method, info, thorough, factor)
     common.switch_variant("omp")
     _full_terms_stream(run, rng, thorough)
     _sequence_stream(run, rng, thorough)
+    _left_handed_stream(run, rng, thorough)
     _glist_observations(run, rng, thorough)
 
     out = common.lean_run_driver("C08", lines)
@@ -526,7 +535,7 @@ def main(run):
     run.cov["correspondence"]["compared"] = ncmp
 
 
-def _batched_oracle(run, rng, ph, prim, rec, cp, q_c, q_gen, n1, plain, sc, sc_dd, method, info, thorough):
+def _batched_oracle(run, rng, ph, prim, rec, cp, q_c, q_gen, n1, plain, sc, sc_dd, method, info, thorough, unit_factor):
     """Many q-points through ONE run_dynamical_matrix_solver_c call (the Mesh / QpointsPhonon batch path, OpenMP over
     q-points) must equal the one-q-at-a-time results entry-wise, the closed form at the zone centre and the uncorrected
     matrix at commensurate points."""
@@ -571,7 +580,7 @@ def _batched_oracle(run, rng, ph, prim, rec, cp, q_c, q_gen, n1, plain, sc, sc_d
     for k, pos in enumerate(order):
         if pos == 0:
             if pred is None:
-                pred = _closed_form(prim, np.array(dm.born), np.array(dm.dielectric_constant), float(dm.nac_factor), n1)
+                pred = _closed_form(prim, np.array(dm.born), np.array(dm.dielectric_constant), _phys_factor(prim, unit_factor), n1)
             if not U.close(batch[k] - plain["gamma"], pred, TOL, tol_sc):
                 run.violation("run_dynamical_matrix_solver_c", "batched-gamma-limit-%s" % method,
                               "batched zone-centre matrix differs from the closed form by %.3g" % U.maxdiff(batch[k] - plain["gamma"], pred), case)
@@ -698,6 +707,113 @@ def _glist_observations(run, rng, thorough):
     }
 
 
+def _left_handed_stream(run, rng, thorough):
+    """The same crystal described with LEFT-HANDED lattice vectors (two basis vectors swapped / one negated, fractional
+    coordinates transformed accordingly, Cartesian positions unchanged): the three limits must hold with the physical
+    volume, and the spectrum must equal the one of the right-handed description at the corresponding q."""
+    from phonopy.harmonic.dynmat_to_fc import get_commensurate_points
+    from phonopy.structure.atoms import PhonopyAtoms
+    from phonopy.structure.brillouin_zone import BrillouinZone
+    from phonopy.structure.symmetry import symmetrize_borns_and_epsilon
+
+    names = ["nacl_prim", "zincblende_prim", "cscl", "triclinic", "wurtzite", "mono_P"]
+    for c in range(8 if thorough else 2):
+        name = names[(c + run.seed) % len(names)]
+        cell, cen = _cell(name)
+        d = [1, 1, 1]
+        d[rng.randrange(3)] = 2
+        # M: new basis vectors (rows) in terms of the old ones, det M = -1
+        if c % 2 == 0:
+            i, j = rng.sample(range(3), 2)
+            M = np.eye(3, dtype=int)
+            M[[i, j]] = M[[j, i]]
+            how = "axes %d and %d swapped" % (i, j)
+        else:
+            i = rng.randrange(3)
+            M = np.eye(3, dtype=int)
+            M[i, i] = -1
+            how = "axis %d negated" % i
+        lat2 = M @ np.asarray(cell.cell)
+        pos2 = np.asarray(cell.scaled_positions) @ np.linalg.inv(M)  # x' M = x
+        cell2 = PhonopyAtoms(cell=lat2, symbols=list(cell.symbols), scaled_positions=pos2, masses=cell.masses)
+        S1 = np.diag(d)
+        S2 = np.diag(np.abs(M @ np.array(d)))  # same supercell
+        variant = "omp" if c % 2 == 0 else "ser"
+        common.switch_variant(variant)
+        info0 = dict(cell=name, how=how, lattice_right=np.asarray(cell.cell).tolist(), lattice_left=lat2.tolist(), scaled_positions_left=pos2.tolist(),
+                     symbols=list(cell.symbols), supercell_right=S1.tolist(), supercell_left=S2.tolist(), variant=variant)
+        ph1 = gen.make_phonopy(cell, S1, pmat="P")
+        try:
+            ph2 = gen.make_phonopy(cell2, S2, pmat="P")
+        except Exception as e:
+            run.count("left-handed description rejected by the constructor (%s)" % type(e).__name__)
+            continue
+        prim1, prim2 = ph1.primitive, ph2.primitive
+        if float(np.linalg.det(prim2.cell)) >= 0:
+            run.count("generator: description not left-handed (skipped)")
+            continue
+        cutoff = 0.8 * gen.min_lattice_vector(ph1.supercell.cell)
+        ph1.force_constants = U.pair_fc(ph1.supercell, cutoff)
+        ph2.force_constants = U.pair_fc(ph2.supercell, cutoff)
+        born0, eps0 = U.random_born_eps(rng, len(prim1))
+        born0 = born0 - born0.mean(axis=0)
+        Z, E = symmetrize_borns_and_epsilon(born0, eps0, prim1)
+        unit_factor = rng.choice([14.4, 2.0, 1.0])
+        Minv_T = np.linalg.inv(M).T  # reduced q of the left-handed description: q' = M^-T q
+        n1 = np.array([rng.randint(-8, 8) / 4.0 + 0.15 for _ in range(3)])
+        q_g = np.array([rng.randint(-16, 16) / 16.0 + 0.0173 for _ in range(3)])
+        n2, q_g2 = Minv_T @ n1, Minv_T @ q_g
+        rec2 = np.linalg.inv(prim2.cell)
+        cp2 = get_commensurate_points(np.rint(np.linalg.inv(prim2.primitive_matrix)).astype(int))
+        bz = BrillouinZone(rec2)
+        bz.run(cp2)
+        q_c2 = np.array(bz.shortest_qpoints[1][0])
+        if not (_margin_ok(rec2, np.zeros(3), n2) and _margin_ok(rec2, q_g2, None) and _margin_ok(rec2, q_c2, None)):
+            continue
+        plain2 = {k: _run_dm(ph2, v) for k, v in (("gamma", np.zeros(3)), ("gen", q_g2), ("comm", q_c2))}
+        plain1_gen = np.linalg.eigvalsh(_run_dm(ph1, q_g))
+        sc = max(1.0, max(float(np.abs(v).max()) for v in plain2.values()))
+        if not U.close(np.linalg.eigvalsh(plain2["gen"]), plain1_gen, 1e-8, sc):
+            run.count("generator: right- and left-handed descriptions give different uncorrected spectra (skipped)")
+            continue
+        for method in ("wang", "gonze"):
+            info = dict(info0, method=method, born=Z.tolist(), dielectric=E.tolist(), factor=unit_factor, direction_left=n2.tolist(), q_left=q_g2.tolist(), q_commensurate_left=q_c2.tolist())
+            run.case(("left-handed", name, how, method, Z.tobytes()), nontrivial=True)
+            run.count("left-handed lattice description (%s)" % method)
+            run.count("left-handed oracle (%s)" % method, section="oracle")
+            problems = []
+            try:
+                nacp = {"born": Z.copy(), "dielectric": E.copy(), "factor": unit_factor, "method": method}
+                ph1.nac_params = dict(nacp)
+                ph2.nac_params = dict(nacp)
+                f = _phys_factor(prim2, unit_factor)
+                pred = _closed_form(prim2, np.array(ph2.dynamical_matrix.born), np.array(ph2.dynamical_matrix.dielectric_constant), f, n2)
+                scd = max(sc, float(np.abs(pred).max()))
+                dg = _run_dm(ph2, np.zeros(3), n2)
+                if not U.close(dg - plain2["gamma"], pred, TOL, scd):
+                    problems.append("Gamma limit differs from (4pi/|V|) f (n.Z)(n.Z)/(n.eps.n)/sqrt(mm') by %.3g (scale %.3g)" % (U.maxdiff(dg - plain2["gamma"], pred), scd))
+                dc = _run_dm(ph2, q_c2)
+                if not U.close(dc, plain2["comm"], TOL if method == "wang" else 1e-3, scd):
+                    problems.append("commensurate no-op off by %.3g" % U.maxdiff(dc, plain2["comm"]))
+                # spectrum equal to the right-handed description (general q, and zone centre with direction)
+                for qa, qb, da, db, tag in ((q_g, q_g2, None, None, "general q"), (np.zeros(3), np.zeros(3), n1, n2, "zone centre with direction")):
+                    e1 = np.linalg.eigvalsh(_run_dm(ph1, qa, da))
+                    e2 = np.linalg.eigvalsh(_run_dm(ph2, qb, db))
+                    if not U.close(e2, e1, 1e-8 if method == "wang" else 1e-6, scd):
+                        problems.append("eigenvalues at the %s differ from the right-handed description by %.3g (scale %.3g)" % (tag, U.maxdiff(e2, e1), float(np.abs(e1).max())))
+                ph2.nac_params = dict(nacp, born=np.zeros_like(Z))
+                dz = _run_dm(ph2, q_g2)
+                if not U.close(dz, plain2["gen"], 1e-9, sc):
+                    problems.append("zero Born charges change D by %.3g" % U.maxdiff(dz, plain2["gen"]))
+            except (ValueError, FloatingPointError, ZeroDivisionError) as e:
+                problems.append("implementation raises %s: %s on a left-handed lattice" % (type(e).__name__, str(e)[:100]))
+            if problems:
+                run.violation("Phonopy.run_qpoints", "left-handed-lattice-%s" % method, "; ".join(problems), info)
+            ph1.nac_params = None
+            ph2.nac_params = None
+    common.switch_variant("omp")
+
+
 def _sequence_stream(run, rng, thorough):
     """Sequences on ONE DynamicalMatrixWang / DynamicalMatrixGL object: compute, reassign nac_params through the public
     setter (new values, zero Born charges, back), change the masses of the primitive cell, compute again; every step is
@@ -782,7 +898,7 @@ def _sequence_stream(run, rng, thorough):
                 fresh_note = ""
                 if dev > 1e-12 * scale:
                     fresh_note = " (differs from a freshly built object in the same state by %.3g)" % dev
-                f_now = float(dm.nac_factor)
+                f_now = _phys_factor(prim, state["factor"])
                 pred = _closed_form(prim, np.array(dm.born), np.array(dm.dielectric_constant), f_now, n)
                 scd = max(scale, float(np.abs(pred).max()))
                 if not U.close(got[0] - pl[0], pred, TOL, scd):
@@ -826,7 +942,7 @@ def _full_terms_stream(run, rng, thorough):
         run.count("with_full_terms=True cases")
         plain = DynamicalMatrix(sc, prim, phi.copy())
         dm = DynamicalMatrixGL(sc, prim, phi.copy(), nac_params={"born": Z, "dielectric": E, "factor": factor}, with_full_terms=True)
-        f = float(dm.nac_factor)
+        f = _phys_factor(prim, factor)
         n = np.array([rng.randint(-8, 8) / 4.0 + 0.1 for _ in range(3)])
         plain.run(np.zeros(3))
         d0 = np.array(plain.dynamical_matrix)
